@@ -383,3 +383,7 @@ mod tests {
         assert_eq!(iter.next(), None);
     }
 }
+
+#[cfg(kani)]
+#[path = "/verif/harness/event_list.rs"]
+mod verif_harness;
